@@ -147,6 +147,10 @@ def touching_is_not_crossing(ctx, rule):
 
 
 def run(ctx):
+  from sa import pitfalls
+  pitfalls.apply(ctx, 'PITFALL', [ctx.func(SL + ':' + n_) for n_ in ('trim_note_sequence', '_extract_subsequences', 'extract_subsequence', 'split_note_sequence',
+                                                                     'split_note_sequence_on_time_changes', 'split_note_sequence_on_silence')], ['mergefrom-as-assignment'], {
+      'mergefrom-as-assignment': 'a piece cut from a sequence that is itself a piece keeps the offsets of the earlier cut wherever the new offset is 0'})
   touching_is_not_crossing(ctx, 'SPLIT/touching-is-not-crossing')
   state_in_force_is_latest(ctx, 'STATE/in-force-is-latest')
   for name in ('trim_note_sequence', '_extract_subsequences', 'extract_subsequence', 'split_note_sequence',
